@@ -511,8 +511,15 @@ fn number<'a>() -> impl Parser<'a, ParserInput<'a>, Literal, ParserError<'a>> {
             // A number that no literal can hold is an error: an integer beyond i64 would
             // silently be rounded to a float and a float beyond f64 would become `inf`
             let is_integer = frac_part.is_empty() && exp_part.is_empty();
+            // .. and a number too small for f64 would silently become 0.0
+            let mantissa_is_zero = !int_part
+                .chars()
+                .chain(frac_part.chars())
+                .any(|c| ('1'..='9').contains(&c));
             match num_str.parse::<f64>() {
-                Ok(f) if f.is_finite() && !is_integer => Ok(Literal::Float(f)),
+                Ok(f) if f.is_finite() && !is_integer && (f != 0.0 || mantissa_is_zero) => {
+                    Ok(Literal::Float(f))
+                }
                 _ => Err(Simple::new(None, span)),
             }
         })
